@@ -46,6 +46,10 @@ def main(tier="quick", seed=0):
     case("wrong-read-value", "C01:value", lambda ev: ev[rets[1]]["result"]["tags"][0].__setitem__("value", {"i": [0, 5]}))
     case("invalid-request-truthy", "C03:invalid-truthy", lambda ev: ev[rets[1]]["result"]["tags"][2].__setitem__("truthy", 1))
     case("valid-write-falsy", "C02:valid-write-failed", lambda ev: ev[rets[2]]["result"]["tags"][1].__setitem__("truthy", 0))
+    def two(ev):
+        ev[rets[1]]["result"]["tags"][0]["value"] = {"i": [0, 5]}
+        ev[rets[2]]["result"]["tags"][1]["truthy"] = 0
+    case("two-properties-one-trace", "C02:valid-write-failed", two)        # the later violation is not hidden by the earlier one
     case("frame-length-field", "C11:length", lambda ev: ev[txs[5]]["b"].__setitem__(2, ev[txs[5]]["b"][2] + 1))
 
     def rep(ev):
